@@ -258,6 +258,15 @@ impl Fx {
         );
         let k = sh["g"].as_u64().expect("g") as usize * self.gsz + pos;
         let mut s = self.shreds.get(&key).unwrap_or_else(|| panic!("harness: no fixture for {key:?}"))[k].clone().into_shred();
+        if sh["tag"].as_str().expect("tag") == "flip" {
+            // the data/coding kind is the enum tag (u32 LE) at byte 0 of the wire format
+            let mut bytes = wincode::serialize(&s).expect("serialize shred");
+            assert!(bytes[0] <= 1 && bytes[1..4] == [0, 0, 0], "harness wire layout of Shred is out of date");
+            bytes[0] ^= 1;
+            let t: Shred = wincode::deserialize(&bytes).expect("deserialize re-tagged shred");
+            assert!(t.is_data() != s.is_data() && t.slice_root() == s.slice_root());
+            s = t;
+        }
         if sh["dmg"].as_bool().expect("dmg") {
             // wire layout: tag u32 | slot u64 | slice index u64 | last u8 | shred index u64 | data len u64 | data ...
             let mut bytes = wincode::serialize(&s).expect("serialize shred");
@@ -304,7 +313,7 @@ impl Fx {
     }
 
     fn no_sh() -> Value {
-        json!({"src": "-", "idx": 0, "g": 0, "last": false, "signer": "-", "dmg": false})
+        json!({"src": "-", "idx": 0, "g": 0, "last": false, "signer": "-", "dmg": false, "tag": "ok"})
     }
     fn no_pf() -> Value {
         json!({"blk": "-", "i": 0, "junk": false})
@@ -335,9 +344,10 @@ impl Fx {
             }
             RepairResponse::Shred(rt, shred) => {
                 let bytes = wincode::serialize(shred).expect("serialize shred");
-                let mut desc = json!({"src": "?", "idx": 0, "g": 0, "last": false, "signer": "?", "dmg": false});
+                let mut desc = json!({"src": "?", "idx": 0, "g": 0, "last": false, "signer": "?", "dmg": false, "tag": "?"});
                 if let Some((src, idx, last, signer, k)) = self.by_bytes.get(&bytes) {
-                    desc = json!({"src": src, "idx": idx, "g": k / self.gsz, "last": last, "signer": signer, "dmg": false, "k": k});
+                    // the fixtures carry the kind the leader gave them
+                    desc = json!({"src": src, "idx": idx, "g": k / self.gsz, "last": last, "signer": signer, "dmg": false, "tag": "ok", "k": k});
                 }
                 let want_k = match q {
                     RepairRequestType::Shred(_, _, k) => k.inner(),
@@ -513,6 +523,7 @@ struct Requester {
     repair: Repair<RecNet>,
     net: RecNet,
     store: SharedBlockstore,
+    store_impl: Arc<RwLock<BlockstoreImpl>>,
     events: mpsc::Receiver<BlockstoreEvent>,
     pool_events: mpsc::Receiver<PoolEvent>,
     repair_reqs: mpsc::Receiver<BlockId>,
@@ -594,29 +605,35 @@ impl RepairDriver {
             wire.push(json!({"bad": b}));
         }
         let mut ev = vec![];
+        let mut inv = 0u64;
         while let Ok(e) = rq.events.try_recv() {
-            if let BlockstoreEvent::Block { slot, block_info } = e {
-                let name = self.fx.hash_name(block_info.verif_hash());
-                ev.push(if slot == Slot::new(1) { name } else { format!("{name}@{}", slot.inner()) });
+            match e {
+                BlockstoreEvent::Block { slot, block_info } => {
+                    let name = self.fx.hash_name(block_info.verif_hash());
+                    ev.push(if slot == Slot::new(1) { name } else { format!("{name}@{}", slot.inner()) });
+                }
+                BlockstoreEvent::InvalidBlock(_) => inv += 1,
+                BlockstoreEvent::FirstShred(_) => {}
             }
         }
         while rq.pool_events.try_recv().is_ok() {}
         while rq.repair_reqs.try_recv().is_ok() {}
-        json!({"wire": wire, "ev": ev, "ans": ans, "panic": panic})
+        json!({"wire": wire, "ev": ev, "ans": ans, "panic": panic, "inv": inv})
     }
 }
 
 impl Driver for RepairDriver {
     fn reset(&mut self) {
         let (etx, erx) = mpsc::channel(4096);
-        let store: SharedBlockstore = Arc::new(RwLock::new(BlockstoreImpl::new(etx)));
+        let store_impl = Arc::new(RwLock::new(BlockstoreImpl::new(etx)));
+        let store: SharedBlockstore = store_impl.clone();
         let (ptx, prx) = mpsc::channel(4096);
         let (rtx, rrx) = mpsc::channel(4096);
         let vepoch = self.fx.vepoch(OWN);
         let pool: SharedPool = Arc::new(RwLock::new(PoolImpl::new(vepoch.clone(), ptx, rtx)));
         let net = RecNet::default();
         let repair = Repair::new(store.clone(), pool.clone(), net.clone(), vepoch);
-        self.rq = Some(Requester { repair, net, store, events: erx, pool_events: prx, repair_reqs: rrx, _pool: pool });
+        self.rq = Some(Requester { repair, net, store, store_impl, events: erx, pool_events: prx, repair_reqs: rrx, _pool: pool });
         self.last_wire.clear();
         self.walk.clear();
     }
@@ -723,6 +740,7 @@ impl Driver for RepairDriver {
             sh.push(Value::Array(groups));
         }
         let marker = store.get_last_slice_index(&b).map_or(-1, |s| slice_num(s) as i64);
+        let flagged = self.rt.block_on(rq.store_impl.read()).verif_leader_misbehaved(Slot::new(1));
         let dcache: Vec<bool> = (0..fx.ns).map(|i| store.cached_commitment(Slot::new(1), slice_index(i)).is_some()).collect();
         // get_block carries a debug assertion on the stored hash
         let done = match std::panic::catch_unwind(AssertUnwindSafe(|| store.get_block(&b).map(|blk| BlockInfo::from(blk).verif_hash().clone()))) {
@@ -738,7 +756,7 @@ impl Driver for RepairDriver {
             || store.get_slice_root(&b, slice_index(fx.ns)).is_some()
             || store.disseminated_block_hash(Slot::new(1)).is_some()
             || store.get_slice_root(&fx.ids["Z"], slice_index(0)).is_some();
-        json!({"out": out, "roots": roots, "sh": sh, "marker": marker, "done": done, "dcache": dcache, "other": other})
+        json!({"out": out, "roots": roots, "sh": sh, "marker": marker, "done": done, "flagged": flagged, "dcache": dcache, "other": other})
     }
 
     fn diff_out(&mut self, _act: &Value, exp: &Value, got: &Value) -> Vec<String> {
@@ -748,6 +766,9 @@ impl Driver for RepairDriver {
         }
         if exp["ev"] != got["ev"] {
             d.push("ev".to_string());
+        }
+        if exp["inv"] != got["inv"] {
+            d.push("inv".to_string());
         }
         if exp["ans"]["v"] != "-" {
             let mut g = got["ans"].clone();
@@ -766,7 +787,7 @@ impl Driver for RepairDriver {
 
     fn diff_obs(&self, exp: &Value, got: &Value) -> Vec<String> {
         let mut d = vec![];
-        for k in ["out", "roots", "sh", "marker", "done", "dcache", "other"] {
+        for k in ["out", "roots", "sh", "marker", "done", "flagged", "dcache", "other"] {
             let same = if k == "out" || k == "sh" { canon(&exp[k]) == canon(&got[k]) } else { exp[k] == got[k] };
             if !same {
                 d.push(k.to_string());
@@ -960,7 +981,8 @@ fn run_scenarios(path: &str, fx: Arc<Fx>, limit: usize, seed: u64) -> anyhow::Re
             requests: requests.clone(),
         };
         let (etx, mut erx) = mpsc::channel(4096);
-        let store: SharedBlockstore = Arc::new(RwLock::new(BlockstoreImpl::new(etx)));
+        let store_impl = Arc::new(RwLock::new(BlockstoreImpl::new(etx)));
+        let store: SharedBlockstore = store_impl.clone();
         // what Rotor left in the slot's dissemination spot before the repair starts
         rt.block_on(fx.populate(&store, dissem));
         while erx.try_recv().is_ok() {}
@@ -975,6 +997,7 @@ fn run_scenarios(path: &str, fx: Arc<Fx>, limit: usize, seed: u64) -> anyhow::Re
         let got = rt.block_on(async {
             block_tx.send(b.clone()).await.expect("repair task accepts the block");
             let mut ann: Vec<String> = vec![];
+            let mut inv = 0u64;
             let mut stored_at = None;
             // The clock is paused and advances when every task is idle.  `repair_loop` computes the
             // expiry of its timers from the wall clock but sleeps on the (virtual) tokio clock, so
@@ -983,8 +1006,10 @@ fn run_scenarios(path: &str, fx: Arc<Fx>, limit: usize, seed: u64) -> anyhow::Re
             for tick in 0..14_400u32 {
                 tokio::time::sleep(std::time::Duration::from_millis(250)).await;
                 while let Ok(e) = erx.try_recv() {
-                    if let BlockstoreEvent::Block { block_info, .. } = e {
-                        ann.push(fx.hash_name(block_info.verif_hash()));
+                    match e {
+                        BlockstoreEvent::Block { block_info, .. } => ann.push(fx.hash_name(block_info.verif_hash())),
+                        BlockstoreEvent::InvalidBlock(_) => inv += 1,
+                        BlockstoreEvent::FirstShred(_) => {}
                     }
                 }
                 while prx.try_recv().is_ok() {}
@@ -1006,13 +1031,36 @@ fn run_scenarios(path: &str, fx: Arc<Fx>, limit: usize, seed: u64) -> anyhow::Re
                 Ok(Some(h)) => fx.hash_name(&h),
                 Err(p) => format!("panic: {}", panic_msg(p)),
             };
-            json!({"done": done, "ann": ann, "panic": task.is_finished()})
+            drop(s);
+            // does the slot still take an authentic shred through dissemination?
+            let probe_blk = if dissem == "other" { "O" } else { "B" };
+            let probe = fx.shreds[&(probe_blk.to_string(), 0, fx.ns == 1, "leader".to_string())][1].clone();
+            let accepts = if task.is_finished() {
+                Value::Null
+            } else {
+                let r = store_impl.write().await.add_shred_from_dissemination(probe).await;
+                json!(!matches!(r, Err(alpenglow::consensus::AddShredError::InvalidShred | alpenglow::consensus::AddShredError::Equivocation)))
+            };
+            while let Ok(e) = erx.try_recv() {
+                if matches!(e, BlockstoreEvent::InvalidBlock(_)) {
+                    inv += 1;
+                }
+            }
+            json!({"done": done, "ann": ann, "panic": task.is_finished(), "inv": inv, "accepts": accepts})
         });
         total_requests += requests.load(Ordering::SeqCst);
         let exp = &case["exp"];
-        let want = json!({"done": exp["done"], "ann": exp["ann"], "panic": exp["panic"]});
+        let want = json!({"done": exp["done"], "ann": exp["ann"], "panic": exp["panic"], "inv": exp["inv"], "accepts": exp["accepts"]});
         if want != got {
-            let what = if got["panic"] != want["panic"] { "task-died" } else if got["done"] == "-" { "never-stored" } else { "stored-or-announced-differently" };
+            let what = if got["panic"] != want["panic"] {
+                "task-died"
+            } else if got["inv"] != want["inv"] || got["accepts"] != want["accepts"] {
+                "leader-flagged"
+            } else if got["done"] == "-" {
+                "never-stored"
+            } else {
+                "stored-or-announced-differently"
+            };
             rep.diverge(&format!("loop:{label}|{what}"), &[what], case, want, got);
         }
         drop(good);
